@@ -205,7 +205,7 @@ func (a *TunnelActor) create(e *Env, u *world.Account) {
 	}
 	var msg *tunneltypes.MsgCreateTunnel
 	var err error
-	isTSS := e.Ch.Bool("tunnel.create.tss", 750)
+	isTSS := e.Ch.Bool("tunnel.create.tss", 880)
 	if isTSS {
 		enc := []feedstypes.Encoder{feedstypes.ENCODER_FIXED_POINT_ABI, feedstypes.ENCODER_TICK_ABI}[e.Ch.Intn("tunnel.create.enc", 2)]
 		msg, err = tunneltypes.NewMsgCreateTSSTunnel(sds, interval, fmt.Sprintf("chain-%d", e.Ch.Intn("tunnel.create.chain", 3)), fmt.Sprintf("0xcontract%d", a.created), enc, dep, u.Addr.String())
